@@ -103,7 +103,13 @@ fn compile_disk(rt: &Runtime<NoCtx>, base: &FsPath) -> Result<Package<NoCtx>, Ob
 }
 
 fn mem_file_name(tree: &Tree, m: usize) -> String {
-    if m == 0 { "pkg.roto".into() } else { format!("{}.roto", tree.path(m).replace('.', "/")) }
+    if m == 0 {
+        "pkg.roto".into()
+    } else if tree.children(m).is_empty() {
+        format!("{}.roto", tree.path(m).replace('.', "/"))
+    } else {
+        format!("{}/mod.roto", tree.path(m).replace('.', "/"))
+    }
 }
 
 fn mem_tree(tree: &Tree, src: &[String]) -> FileTree {
@@ -523,15 +529,15 @@ fn nontrivial(world: &World, p: &Prog, e: Expect) -> bool {
     }
 }
 
-fn run_probes(env: &Env, site: usize, kind: Kind, group: usize, cx: &mut Cx) {
-    let progs = enumerate::probes(&env.world, site, kind, group, cx.cfg.tier);
+fn run_probes(env: &Env, site: usize, kind: Kind, group: usize, impkind: Option<usize>, cx: &mut Cx) {
+    let progs = enumerate::probes(&env.world, site, kind, group, impkind, cx.cfg.tier);
     let expects: Vec<Expect> = progs.iter().map(|p| reference::expect(&env.world, p, Sem::SPEC)).collect();
     let base = disk::work_root().join(format!("u{}", cx.unit));
     let n_layouts = env.layouts.len();
     let item_src: Vec<String> = (0..env.world.tree.n()).map(|m| env.world.items_src(m)).collect();
     let disk_every = match cx.cfg.tier {
         Tier::Quick => 4,
-        Tier::Thorough => 2,
+        Tier::Thorough => 4,
     };
     let mut run = ProbeRun {
         env,
@@ -818,7 +824,7 @@ impl Check for C13 {
         let env = env_of(&u);
         match u {
             Unit::Lookup { .. } => run_lookup(&env, cx),
-            Unit::Probes { site, kind, group, .. } => run_probes(&env, site, kind, group, cx),
+            Unit::Probes { site, kind, group, impkind, .. } => run_probes(&env, site, kind, group, impkind, cx),
         }
     }
     fn describe(&self, cfg: &Cfg, unit: usize, sub: u64) -> Value {
@@ -838,8 +844,8 @@ impl Check for C13 {
                 let name = names.get(ci).map(|n| n.0.as_str()).unwrap_or("(compile)");
                 lookup_case(&env, if o == 0 { "memory" } else { "disk" }, layout, name, &src)
             }
-            Unit::Probes { site, kind, group, .. } => {
-                let progs = enumerate::probes(&env.world, site, kind, group, cfg.tier);
+            Unit::Probes { site, kind, group, impkind, .. } => {
+                let progs = enumerate::probes(&env.world, site, kind, group, impkind, cfg.tier);
                 if sub & BATCH_BIT != 0 {
                     let first = (sub & (BATCH_BIT - 1)) as usize;
                     let Some(p0) = progs.get(first) else { return json!({"what": "batch", "unit": unit}) };
@@ -917,9 +923,10 @@ impl Check for C13 {
                 "import_kinds": ["single", "list", "module-then-path", "chain", "chain-reversed", "chain-of-3-reversed"],
                 "import_placements": ["top-before", "top-after", "block-before", "block-after", "outer-before", "outer-after", "sibling-arm", "parent-module-top (use unchanged)", "parent-module-top (use via super.)", "parent-module-top (use via pkg...)"],
                 "import_forms_with_shadows": enumerate::FULL_PFORMS,
+                "import_groups_per_kind": "call, const: the forms with shadows; the remaining (lite) forms without shadows for call (quick: call and const); record uses: no-import group only",
                 "import_shadows": enumerate::import_shadows(cfg.tier, 1, Kind::Const).iter().map(|s| format!("{s:?}")).collect::<Vec<_>>(),
                 "shadows": ["none", "let-first-seg", "let-first-seg-outer", "param-first-seg", "let-last-seg", "let-after-use", "pattern-first-seg"],
-                "disk_layouts": "every file/mod.roto choice for leaf modules; batches in all layouts; single-probe packages in one layout each (quick: every 4th probe)",
+                "disk_layouts": "every file/mod.roto choice for leaf modules; every 4th batch and every 4th single-probe package also from disk, the layouts in turn; the lookup units use every layout",
                 "get_function_paths": LOOKUP_PATHS,
             }),
             states_are: "distinct probe programs and get_function lookups".into(),
@@ -948,9 +955,9 @@ impl Check for C13 {
             let mut per_tree: BTreeMap<usize, usize> = BTreeMap::new();
             let table = unit_table(cfg.tier);
             for u in &table {
-                if let Unit::Probes { tree, placement, site, kind, group } = u {
+                if let Unit::Probes { tree, placement, site, kind, group, impkind } = u {
                     let env = Env::new(*tree, *placement, false);
-                    let k = enumerate::probes(&env.world, *site, *kind, *group, cfg.tier).len();
+                    let k = enumerate::probes(&env.world, *site, *kind, *group, *impkind, cfg.tier).len();
                     n += k;
                     *per_tree.entry(*tree).or_default() += k;
                 }
